@@ -532,9 +532,17 @@ func c31Int(s c31Src) uint64 {
 	case 6, 7, 8:
 		return c31IntPool[s.N(len(c31IntPool))]
 	default:
+		// random width, but not 30..48 bits: should a size check ever be missing, such a value makes the runtime
+		// die of memory exhaustion (unrecoverable, so undecidable here) instead of panicking in makeslice
 		k := s.N(65)
 		if k == 0 {
 			return 0
+		}
+		if k >= 30 && k <= 48 {
+			k += 19
+		}
+		if k > 64 {
+			k = 64
 		}
 		return s.U64() >> uint(64-k)
 	}
